@@ -6,37 +6,26 @@ import Mathlib.Tactic.Linarith
 Statements about `Model/Faucet.lean` (smartcontract/faucetsc/sc.go), tied to the Go code by `harness/cmd/c17`
 (the real contract through the real `Chain.UpdateState`).
 
-The FULL statement — inside one reset window a client is never poured more than `periodic_limit`, all clients together
-never more than `global_limit` — is **false of the code**: `validPourRequest` checks the limits with `PourAmount`, but
-`pour` hands out `t.Value` whenever `0 < t.Value < MaxPourAmount`.
-* `periodic_limit_exceeded_witness` — the shipped configuration (pour 1, max 100, periodic 1000 ZCN): eleven pours of
-  99 ZCN by one client within 11 seconds all succeed: 1089 ZCN (replayed on the Go code: harness fixed case 1);
-* `global_limit_exceeded_witness`.
-What IS true (for every operation sequence, `reachable_inv`):
-* `pour_overshoot_bounded` — the counters never exceed `limit − pour_amount + max(pour_amount, max_pour_amount − 1)`:
-  the overshoot is less than `max_pour_amount − pour_amount`;
-* `pour_within_limits_partial` — the limits hold exactly when a request can never be honoured above `PourAmount`
-  (`max_pour_amount ≤ pour_amount + 1`);
-* `pour_le_faucet_balance` — a successful pour never exceeds the faucet's balance (else the engine rejects the
-  whole transaction) and the balance decreases by exactly the amount.
+Since repair 4b549c9 (`pour` computes the amount first, `validPourRequest` checks balance and both limits against it) the
+property holds in full:
+* `pour_within_limits` — from a fresh faucet, under ANY configuration (validity is not even needed), after ANY sequence of
+  pour and refill transactions (any clients, values, timestamps): every client's window counter `≤ periodic_limit`, the
+  global counter `≤ global_limit`;
+* `pour_le_faucet_balance` — a successful pour never exceeds the faucet's balance, which decreases by exactly the amount;
+* `pour_ok_spec`, `step_inv` — the single step.
 The counters are per-window sums by construction (`globalVars`/`userVars` reset them to 0 exactly when the window has
-elapsed); the harness oracle checks the window sums on the implementation directly.
+elapsed); the harness oracle checks the window sums on the implementation directly and keeps the signatures
+`periodic-limit-exceeded`, `global-limit-exceeded` and their `…-beyond-one-request` forms active.
+
+Historical (before 4b549c9): the limits were checked with `PourAmount` while `t.Value` was poured, so the shipped
+configuration let one client take 1089 ZCN in a window of 1000 (`eleven_pours_capped_witness` shows the same input now
+stops at the limit); the bounded-overshoot and `_partial` theorems of that version are subsumed by `pour_within_limits`.
 -/
 namespace ZChain.Faucet
 open ZChain ZChain.Coin
 
-def maxReq (c : Conf) : Nat := Nat.max c.pour (c.maxPour - 1)
-def uBound (c : Conf) : Nat := c.periodic - c.pour + maxReq c
-def gBound (c : Conf) : Nat := c.global - c.pour + maxReq c
-
 /-- the invariant of every reachable state. -/
-def Inv (st : St) : Prop := (∀ p ∈ st.users, p.2.used ≤ uBound st.conf) ∧ st.gUsed ≤ gBound st.conf
-
-theorem pourAmount_le (c : Conf) (v : Nat) : pourAmount c v ≤ maxReq c := by
-  unfold pourAmount maxReq
-  split
-  · rename_i h; exact Nat.le_trans (by omega) (Nat.le_max_right _ _)
-  · exact Nat.le_max_left _ _
+def Inv (st : St) : Prop := (∀ p ∈ st.users, p.2.used ≤ st.conf.periodic) ∧ st.gUsed ≤ st.conf.global
 
 theorem addCoin_ok {c b s : Nat} (h : addCoin c b = .ok s) : s = c + b := by
   unfold addCoin at h
@@ -77,28 +66,14 @@ theorem globalVars_le (st : St) (now : Int) : (globalVars st now).1 ≤ st.gUsed
     · exact Nat.zero_le _
     · exact Nat.le_refl _
 
-theorem userVars_le (st : St) (c : Nat) (now : Int) (h : ∀ p ∈ st.users, p.2.used ≤ uBound st.conf) :
-    (userVars st c now).used ≤ uBound st.conf := by
-  unfold userVars
-  cases hl : lookup st.users c with
-  | none =>
-    simp only
-    split <;> exact Nat.zero_le _
-  | some u =>
-    simp only
-    obtain ⟨k', hm⟩ := lookup_mem _ _ _ hl
-    split
-    · exact Nat.zero_le _
-    · exact h _ hm
-
 /-- what a successful `pour` did. -/
 theorem pour_ok_spec {st st' : St} {c v a : Nat} {now : Int} (h : pour st c v now = .ok st' a) :
     st'.conf = st.conf ∧ a = pourAmount st.conf v ∧
     (∃ bal, st.faucet = some bal ∧ a ≤ bal ∧ st'.faucet = some (bal - a)) ∧
-    st.conf.pour + (userVars st c now).used ≤ st.conf.periodic ∧
-    st.conf.pour + (globalVars st now).1 ≤ st.conf.global ∧
-    st'.gUsed = (globalVars st now).1 + a ∧
-    st'.users = upsert st.users c { userVars st c now with used := (userVars st c now).used + a } := by
+    a + (userVars st c now).used ≤ st.conf.periodic ∧
+    a + (globalVars st now).1 ≤ st.conf.global ∧
+    st'.gUsed = a + (globalVars st now).1 ∧
+    st'.users = upsert st.users c { userVars st c now with used := a + (userVars st c now).used } := by
   unfold pour at h
   simp only at h
   split at h
@@ -106,7 +81,8 @@ theorem pour_ok_spec {st st' : St} {c v a : Nat} {now : Int} (h : pour st c v no
   · rename_i bal hbal
     split at h
     · cases h
-    · split at h
+    · rename_i hb
+      split at h
       · cases h
       · rename_i t ht
         split at h
@@ -118,41 +94,27 @@ theorem pour_ok_spec {st st' : St} {c v a : Nat} {now : Int} (h : pour st c v no
             split at h
             · cases h
             · rename_i hglob
-              split at h
-              · cases h
-              · rename_i uu huu
-                split at h
-                · cases h
-                · rename_i gg hgg
-                  split at h
-                  · cases h
-                  · rename_i hb
-                    injection h with h1 h2
-                    subst h1 h2
-                    have e1 := addCoin_ok ht
-                    have e2 := addCoin_ok htg
-                    have e3 := addCoin_ok huu
-                    have e4 := addCoin_ok hgg
-                    refine ⟨rfl, rfl, ⟨bal, hbal, by omega, rfl⟩, by omega, by omega, by simp only; omega, ?_⟩
-                    simp only [e3]
+              injection h with h1 h2
+              subst h1 h2
+              have e1 := addCoin_ok ht
+              have e2 := addCoin_ok htg
+              refine ⟨rfl, rfl, ⟨bal, hbal, by omega, rfl⟩, by omega, by omega, by simp only; omega, ?_⟩
+              simp only [e1]
 
 /-- **pour_le_faucet_balance.** -/
 theorem pour_le_faucet_balance {st st' : St} {c v a : Nat} {now : Int} (h : pour st c v now = .ok st' a) :
     ∃ bal, st.faucet = some bal ∧ a ≤ bal ∧ st'.faucet = some (bal - a) := (pour_ok_spec h).2.2.1
 
-theorem pour_inv {st st' : St} {c v a : Nat} {now : Int} (hp : st.conf.pour ≤ st.conf.periodic ∧ st.conf.pour ≤ st.conf.global)
-    (hi : Inv st) (h : pour st c v now = .ok st' a) : Inv st' := by
-  obtain ⟨hc, ha, _, hper, hglob, hg, hu⟩ := pour_ok_spec h
-  have hle := pourAmount_le st.conf v
+theorem pour_inv {st st' : St} {c v a : Nat} {now : Int} (hi : Inv st) (h : pour st c v now = .ok st' a) : Inv st' := by
+  obtain ⟨hc, _, _, hper, hglob, hg, hu⟩ := pour_ok_spec h
   constructor
   · intro p hp'
     rw [hu] at hp'
     rw [hc]
     rcases mem_upsert _ _ _ _ hp' with rfl | hm
-    · show (userVars st c now).used + a ≤ uBound st.conf
-      unfold uBound; omega
+    · exact hper
     · exact hi.1 p hm
-  · rw [hg, hc]; unfold gBound; omega
+  · rw [hg, hc]; exact hglob
 
 theorem refill_inv {st st' : St} {c v a : Nat} {now : Int} (hi : Inv st) (h : refill st c v now = .ok st' a) : Inv st' := by
   unfold refill at h
@@ -200,57 +162,33 @@ theorem step_conf (st : St) (op : Op) : (step st op).conf = st.conf := by
     | err e => rfl
     | rejected => rfl
 
-theorem step_inv (st : St) (op : Op) (hp : st.conf.pour ≤ st.conf.periodic ∧ st.conf.pour ≤ st.conf.global) (hi : Inv st) :
+theorem step_inv (st : St) (op : Op) (hi : Inv st) :
     Inv (step st op) := by
   cases op with
-  | pour c v now => exact apply_inv st c _ hi (fun st' a h => pour_inv hp hi h)
+  | pour c v now => exact apply_inv st c _ hi (fun st' a h => pour_inv hi h)
   | refill c v now => exact apply_inv st c _ hi (fun st' a h => refill_inv hi h)
 
-/-- **reachable_inv / pour_overshoot_bounded.** From a fresh faucet, after ANY sequence of pour and refill
-transactions (any clients, values, timestamps), every client's window counter is at most
-`periodic − pour + max(pour, maxPour − 1)` and the global counter at most `global − pour + max(pour, maxPour − 1)`. -/
-theorem pour_overshoot_bounded (conf : Conf) (hv : conf.valid = true) (faucet : Option Nat) (accounts : List (Nat × Nat))
-    (ops : List Op) :
+/-- **pour_within_limits** (the property, in full). From a fresh faucet, under any configuration, after ANY sequence of
+pour and refill transactions (any clients, requested values, timestamps — also going backwards): every client's window
+counter is at most the periodic limit and the global window counter at most the global limit. -/
+theorem pour_within_limits (conf : Conf) (faucet : Option Nat) (accounts : List (Nat × Nat)) (ops : List Op) :
     let st := run (init conf faucet accounts) ops
-    (∀ p ∈ st.users, p.2.used ≤ conf.periodic - conf.pour + Nat.max conf.pour (conf.maxPour - 1)) ∧
-    st.gUsed ≤ conf.global - conf.pour + Nat.max conf.pour (conf.maxPour - 1) := by
-  have hvv : conf.pour ≤ conf.periodic ∧ conf.pour ≤ conf.global := by
-    unfold Conf.valid at hv
-    simp only [Bool.and_eq_true, decide_eq_true_eq] at hv
-    omega
+    (∀ p ∈ st.users, p.2.used ≤ conf.periodic) ∧ st.gUsed ≤ conf.global := by
   have key : ∀ (st : St), st.conf = conf → Inv st → Inv (run st ops) ∧ (run st ops).conf = conf := by
     induction ops with
     | nil => intro st hc hi; exact ⟨hi, hc⟩
     | cons op ops ih =>
       intro st hc hi
-      have h1 := step_inv st op (by rw [hc]; exact hvv) hi
+      have h1 := step_inv st op hi
       have h2 := step_conf st op
       exact ih (step st op) (by rw [h2, hc]) h1
   obtain ⟨hi, hc⟩ := key (init conf faucet accounts) rfl ⟨(by intro p hp; cases hp), Nat.zero_le _⟩
   simp only
-  unfold Inv uBound gBound maxReq at hi
+  unfold Inv at hi
   rw [hc] at hi
   exact hi
 
-/-- **pour_within_limits_partial.** When no request can be honoured above `PourAmount`
-(`max_pour_amount ≤ pour_amount + 1`) the property holds as worded: the counters never exceed the limits. -/
-theorem pour_within_limits_partial (conf : Conf) (hv : conf.valid = true) (hm : conf.maxPour ≤ conf.pour + 1)
-    (faucet : Option Nat) (accounts : List (Nat × Nat)) (ops : List Op) :
-    let st := run (init conf faucet accounts) ops
-    (∀ p ∈ st.users, p.2.used ≤ conf.periodic) ∧ st.gUsed ≤ conf.global := by
-  have h := pour_overshoot_bounded conf hv faucet accounts ops
-  have hvv : conf.pour ≤ conf.periodic ∧ conf.pour ≤ conf.global := by
-    unfold Conf.valid at hv
-    simp only [Bool.and_eq_true, decide_eq_true_eq] at hv
-    omega
-  have hmax : Nat.max conf.pour (conf.maxPour - 1) = conf.pour := Nat.max_eq_left (by omega)
-  simp only at h ⊢
-  rw [hmax] at h
-  constructor
-  · intro p hp; have := h.1 p hp; omega
-  · have := h.2; omega
-
-/-! ## negation witnesses of the full statement -/
+/-! ## the repaired case (historical negation witness) and non-vacuity -/
 
 /-- the configuration shipped in docker.local/config/sc.yaml (amounts in 10^-10 ZCN, resets 3 h / 48 h). -/
 def shipped : Conf := ⟨10000000000, 1000000000000, 10000000000000, 1000000000000000, 10800000000000, 172800000000000⟩
@@ -259,27 +197,26 @@ example : shipped.valid = true := by decide
 
 def elevenPours : List Op := (List.range 11).map fun k => Op.pour 1 990000000000 (1700000000 + Int.ofNat k)
 
-/-- **negation witness** (DESIGN §7 #6): eleven pours of 99 ZCN by client 1 within 11 seconds — one 3-hour window —
-all succeed; the client has received 1089 ZCN, the periodic limit is 1000 ZCN. -/
-theorem periodic_limit_exceeded_witness :
+/-- DESIGN §7 #6, repaired: eleven pours of 99 ZCN by client 1 within 11 seconds. Before 4b549c9 all eleven succeeded
+(1089 ZCN against a periodic limit of 1000); now the first ten succeed (990 ZCN) and the eleventh is refused. -/
+theorem eleven_pours_capped_witness :
     let st := run (init shipped (some 100000000000000000) []) elevenPours
-    lookup st.users 1 = some { start := 1700000000, used := 10890000000000 } ∧
-    lookup st.accounts 1 = some 10890000000000 ∧ shipped.periodic < 10890000000000 := by decide +kernel
+    lookup st.users 1 = some { start := 1700000000, used := 9900000000000 } ∧
+    lookup st.accounts 1 = some 9900000000000 ∧
+    pour st 1 990000000000 1700000011 = .err .periodicLimit ∧
+    (match pour st 1 100000000000 1700000011 with
+      | .ok _ a => a == 100000000000
+      | _ => false) = true := by decide +kernel
 
-/-- the global limit likewise: limit 9, three clients receive 2+2+2+2+2 = 10 in one window. -/
-theorem global_limit_exceeded_witness :
-    let conf : Conf := ⟨1, 3, 5, 9, 1000000000, 2000000000⟩
-    conf.valid = true ∧
-    (run (init conf (some 100) []) [.pour 0 2 100, .pour 0 2 100, .pour 1 2 100, .pour 1 2 100, .pour 2 2 100]).gUsed = 10 := by
-  decide +kernel
-
-/-! ## non-vacuity: the bound of `pour_overshoot_bounded` is attained -/
-
-example : uBound shipped = 10989999999999 := by decide
+/-- the limits are attainable exactly (the theorem is tight): 10 × 99 + 10 = 1000 ZCN. -/
 example :
-    let st := run (init shipped (some 100000000000000000) [])
-      (((List.range 9).map fun k => Op.pour 1 999999999999 (1700000000 + Int.ofNat k)) ++
-        [.pour 1 990000000009 1700000020, .pour 1 999999999999 1700000021, .pour 1 0 1700000022])
-    lookup st.users 1 = some { start := 1700000000, used := 10989999999999 } := by decide +kernel
+    let st := run (init shipped (some 100000000000000000) []) (elevenPours.take 10 ++ [.pour 1 100000000000 1700000020, .pour 1 1 1700000021])
+    lookup st.users 1 = some { start := 1700000000, used := 10000000000000 } := by decide +kernel
+
+/-- the global limit likewise: limit 9, pours of 2: the fifth is refused. -/
+example :
+    let conf : Conf := ⟨1, 3, 5, 9, 1000000000, 2000000000⟩
+    (run (init conf (some 100) []) [.pour 0 2 100, .pour 0 2 100, .pour 1 2 100, .pour 1 2 100, .pour 2 2 100, .pour 2 1 100]).gUsed = 9 := by
+  decide +kernel
 
 end ZChain.Faucet
